@@ -19,3 +19,4 @@ INVARIANT ReportIsOneEntryPerRequest
 INVARIANT ReportStatesWhatWasComputed
 INVARIANT ReportedCsvIsConsistent
 PROPERTY NetworkFrozen
+PROPERTY SimParamsFrozen
